@@ -173,23 +173,29 @@ is the head of `L` and the scanner holds the tail; at the end of `L` the current
 def Cursor (e : EF) (st : St) (L : List Tok) : Prop :=
   (L = [] ∧ e.t = eofTok ∧ st.raw = []) ∨ (∃ t r, L = t :: r ∧ e.t = t ∧ st.raw = r)
 
+/-- the fields argument collection never touches -/
+def Same3 (a b : St) : Prop := a.events = b.events ∧ a.ppnl = b.ppnl ∧ a.prag = b.prag
+
+theorem Same3.trans {a b c : St} (h1 : Same3 a b) (h2 : Same3 b c) : Same3 a c :=
+  ⟨h1.1.trans h2.1, h1.2.1.trans h2.2.1, h1.2.2.trans h2.2.2⟩
+
 /-- the outcome of `exec` on the inner loop, against the outcome of `collect` -/
 def Agrees (ps : List Param) (name : Name) (st : St) (c : Call) (r : Except Err (List (List Tok) × List Tok)) : Prop :=
   match r with
   | .error err => ∃ n, exec n c st = .error err
   | .ok (args, rest) => ∃ n st', exec n c st = .ok st' ∧ st'.raw = rest ∧ st'.ctx = [] ∧
-      st'.macros = setArgs st.macros name (List.zipWith mkArg ps args) ∧ st'.depth = st.depth ∧ st'.events = st.events
+      st'.macros = setArgs st.macros name (List.zipWith mkArg ps args) ∧ st'.depth = st.depth ∧ Same3 st' st
 
 theorem cursor_step {st : St} {r : List Tok} (n : Nat) (hctx : st.ctx = []) (hraw : st.raw = r)
     (hpl : ∀ t r', r = t :: r' → PlainTok st.macros t) :
     ∃ st1, exec (n + 4) (.argLoop false) st = .ok st1 ∧ st1.ctx = [] ∧ st1.macros = st.macros ∧
-      st1.depth = st.depth ∧ st1.events = st.events ∧
+      st1.depth = st.depth ∧ Same3 st1 st ∧
       ((r = [] ∧ st1.rt = eofTok ∧ st1.raw = []) ∨ (∃ t r', r = t :: r' ∧ st1.rt = t ∧ st1.raw = r')) := by
   cases r with
   | nil =>
-    exact ⟨_, argnext_eof n st hctx hraw, hctx, rfl, rfl, rfl, .inl ⟨rfl, rfl, hraw⟩⟩
+    exact ⟨_, argnext_eof n st hctx hraw, hctx, rfl, rfl, ⟨rfl, rfl, rfl⟩, .inl ⟨rfl, rfl, hraw⟩⟩
   | cons t r' =>
-    exact ⟨_, argnext_plain n st hctx t r' hraw (hpl t r' rfl), hctx, rfl, rfl, rfl,
+    exact ⟨_, argnext_plain n st hctx t r' hraw (hpl t r' rfl), hctx, rfl, rfl, ⟨rfl, rfl, rfl⟩,
       .inr ⟨t, r', rfl, rfl, rfl⟩⟩
 
 theorem collect_ne_fuel (ps : List Param) : ∀ (L : List Tok) (i paren : Nat) (cur : List Tok) (done : List (List Tok)),
@@ -215,7 +221,7 @@ only in what the loop consumed, agreement carries over -/
 theorem agrees_step {ps : List Param} {name : Name} {st st2 : St} {c c2 : Call}
     {R : Except Err (List (List Tok) × List Tok)} (hR : R ≠ .error .fuel)
     (hstep : ∀ k, 4 ≤ k → exec (k + 1) c st = exec k c2 st2)
-    (hm : st2.macros = st.macros) (hd : st2.depth = st.depth) (he : st2.events = st.events)
+    (hm : st2.macros = st.macros) (hd : st2.depth = st.depth) (he : Same3 st2 st)
     (h : Agrees ps name st2 c2 R) : Agrees ps name st c R := by
   unfold Agrees at *
   cases R with
@@ -229,7 +235,7 @@ theorem agrees_step {ps : List Param} {name : Name} {st st2 : St} {c c2 : Call}
   | ok x =>
     obtain ⟨args, rest⟩ := x
     obtain ⟨n0, st', hn0, h1, h2, h3, h4, h5⟩ := h
-    refine ⟨max n0 4 + 1, st', ?_, h1, h2, by rw [h3, hm], by rw [h4, hd], by rw [h5, he]⟩
+    refine ⟨max n0 4 + 1, st', ?_, h1, h2, by rw [h3, hm], by rw [h4, hd], h5.trans he⟩
     rw [hstep _ (Nat.le_max_right ..)]
     exact lift hn0 (by intro hh; cases hh) _ (Nat.le_max_left ..)
 
@@ -349,7 +355,7 @@ theorem efLoop_collect (ps : List Param) (name : Name) : ∀ (L : List Tok) (e :
             · simp only [h2, ne_eq, not_false_eq_true, ↓reduceIte] at hbody ⊢
               exact ⟨1, hbody⟩
             · simp only [h2, ↓reduceIte] at hbody ⊢
-              refine ⟨1, _, hbody, hraw, hctx, ?_, rfl, rfl⟩
+              refine ⟨1, _, hbody, hraw, hctx, ?_, rfl, ⟨rfl, rfl, rfl⟩⟩
               simp only [hname, List.reverse_cons]
               rw [zipWith_snoc ps DONE.reverse CUR.reverse (by simp [hr.ndone, hi]), hr.done, curArg_eq hr]
               simp [hr.ndone]
